@@ -82,6 +82,21 @@ def judge_direct(case, rec):
         cp = np.asarray(part.column_proportions, dtype=float)
         rows_cat_date = orc.rows.var.get("flavour") == "cat_date"
         cols_cat_date = orc.cols.var.get("flavour") == "cat_date"
+        # every insertion that references at least one valid element (as addend OR as
+        # subtrahend) is displayed, the others are skipped
+        from engine import spec_order
+        for which_, dim_, key_, specs_ in (("rows", orc.rows, "rows", rspecs),
+                                           ("columns", orc.cols, "cols", cspecs)):
+            if dim_.kind not in ("cat", "ca_cats"):
+                continue
+            want_names = [i["name"] for i in spec_order.valid_insertions(
+                case["insertions"][key_], dim_.keys)]
+            got_names = [s_[1] for s_ in specs_ if s_[0] == "sub"]
+            rec.compared()
+            if sorted(got_names) != sorted(want_names):
+                rec.violation("%s: displayed insertions %r, definitions referencing a valid "
+                              "element %r" % (which_, got_names, want_names),
+                              "insertions-displayed")
         drows = tuple(i for i, s in enumerate(rspecs) if orc.is_diff(s))
         dcols = tuple(j for j, s in enumerate(cspecs) if orc.is_diff(s))
         rec.compared(2)
